@@ -494,3 +494,100 @@ def c05(ctx):
         assumptions=["insertion-order independence is asserted for the key-sorting codecs only",
                      "the expected bytes come from the registered encoder (judged separately by C02/C04)"],
         exhaustive=True)
+
+
+# --------------------------------------------------------------------------- traversal
+TR_INV = "VisitedPathsResolve ParentsBeforeChildren BudgetRespected"
+
+
+def tr_cfg(mode, depth, shard=0, nshards=1):
+    return """SPECIFICATION Spec
+CONSTANTS
+  Cases <- GenCases
+  Mode = "%s"
+  SelDepth = %d
+  Shard = %d
+  NShards = %d
+INVARIANTS %s Emit
+CHECK_DEADLOCK FALSE
+""" % (mode, depth, shard, nshards, TR_INV)
+
+
+def walk_cases(ctx, mode, depth, nshards, label):
+    jobs, files = [], []
+    for sh in range(nshards):
+        f = os.path.join(ctx.scratch, "walk-%s-%d.ndjson" % (label, sh))
+        files.append(f)
+        jobs.append(dict(module="TraversalGen", cfg=tr_cfg(mode, depth, sh, nshards), capture=f, workers=2,
+                         heap="3g", timeout=3000))
+    ctx.tlc_parallel(jobs, max_procs=8)
+    allf = os.path.join(ctx.scratch, "walk-%s.ndjson" % label)
+    with open(allf, "w") as out:
+        for f in files:
+            out.write(open(f).read())
+            os.remove(f)
+    return allf
+
+
+@prop("C07")
+def c07(ctx):
+    quick = ctx.tier == "quick"
+    f = walk_cases(ctx, "plain", 2, 8, "plain")
+    args = ["walk", "-in", f]
+    ctx.absorb(ctx.vh_run(args, timeout=3000), args, label="walk/plain")
+    if not quick:
+        f = walk_cases(ctx, "plain3", 3, 16, "plain3")
+        args = ["walk", "-in", f]
+        ctx.absorb(ctx.vh_run(args, timeout=3000), args, label="walk/plain3")
+    return ctx.finish(
+        "model_checking",
+        rule="cases = every selector of the language that compiles up to AST depth 2 (all clause kinds: matcher, subset "
+             "matcher, explore-all/-fields/-index/-range/-union, recursion with depth limits 1, 2, none, edges, stop-at) x 7 "
+             "graphs (maps, lists, scalars, shared/repeated links, link to a scalar block, empty containers, numeric keys); "
+             "the walk machine of Traversal.tla gives the visit sequence (path, reason, node) and the load sequence, "
+             "traversal.WalkAdv / WalkMatching must produce exactly these; non-trivial = more than one visit; distinct = "
+             "distinct (graph, selector)",
+        assumptions=["selector semantics = the transcription in Selector.tla (the IPLD selector fixtures are absent from the checkout)",
+                     "blocks are stored as dag-cbor; linked blocks keep maps in canonical order"],
+        exhaustive=True)
+
+
+@prop("C14")
+def c14(ctx):
+    f = walk_cases(ctx, "plain", 2, 8, "plain")
+    args = ["walk", "-in", f, "-paths"]
+    ctx.absorb(ctx.vh_run(args, timeout=3000), args, label="walk/paths")
+    pf = os.path.join(ctx.scratch, "paths.ndjson")
+    ctx.tlc("PathsGen", tr_cfg("plain", 1).replace("SPECIFICATION Spec", "SPECIFICATION Spec2")
+            .replace(TR_INV + " Emit", "RoundTripIffClean ResolveIffExists Emit2"), capture=pf, workers=4)
+    args = ["paths", "-in", pf]
+    ctx.absorb(ctx.vh_run(args), args, label="paths/probes")
+    return ctx.finish(
+        "model_checking",
+        rule="(1) every visit of every C07 walk: the Progress.Path object handed to the callback is retained and, after the "
+             "walk, resolved with traversal.Get, Focus and one LookupBySegment at a time (loading links) -- each must give "
+             "the visited node; (2) resolution probes: every existing path of every graph (depth <= 3, through links) and its "
+             "extension by a missing key / out-of-range index / non-numeric segment on a list / segment below a scalar, "
+             "with the verdict of Traversal!Resolve; (3) string form: every path over a 10-segment alphabet (empty, '/', "
+             "'a/b', '01', '-', '..', non-ASCII) up to length 3; non-trivial = non-empty path; distinct = distinct cases",
+        assumptions=["the node at a path is never a link node: links on the way are loaded (as the walk does)"],
+        exhaustive=True)
+
+
+@prop("C15")
+def c15(ctx):
+    f = os.path.join(ctx.scratch, "walk-ctl.ndjson")
+    ctx.tlc("TraversalGen", tr_cfg("ctl", 1), capture=f, workers=8, timeout=3000)
+    args = ["walk", "-in", f, "-controls"]
+    ctx.absorb(ctx.vh_run(args, timeout=3000), args, label="walk/controls")
+    return ctx.finish(
+        "model_checking",
+        rule="cases = 7 graphs x 6-7 selectors (recursive explore-all with and without limits and stop-at, unions, fields) x "
+             "every control on its own: node budget 0..10, link budget 0..4, every start-at path of the graph up to depth 3, "
+             "visit-links-once, every skip set of <= 2 blocks; the walk machine of Traversal.tla (budgets, the start-at "
+             "filter of the recurse closure, seen-links, SkipMe) predicts visits, loads and the budget error with its path; "
+             "the real walk must agree AND satisfy the stated relation against the real unrestricted walk (first N visits, "
+             "tail from the start path, subsequence, each link once); non-trivial = more than one visit or an error; "
+             "distinct = distinct (graph, selector, control)",
+        assumptions=["each control is applied on its own, without a preloader (as the property says)"],
+        exhaustive=True)
